@@ -1229,6 +1229,28 @@ class Normaliser(object):
                     out.append(st_if)
                     norm_.inlined.append(('parallel conditional assignment', '', 'to-statement'))
                     continue
+                def plain_target(t_):
+                    return isinstance(t_, ast.Name) or (isinstance(t_, ast.Attribute) and isinstance(t_.value, ast.Name))
+                if isinstance(s_, ast.Assign) and len(s_.targets) == 1 and isinstance(s_.targets[0], ast.Tuple) and isinstance(s_.value, ast.Tuple) and \
+                        len(s_.targets[0].elts) == len(s_.value.elts) and all(plain_target(t) for t in s_.targets[0].elts) and \
+                        not all(isinstance(t, ast.Name) for t in s_.targets[0].elts) and not any(isinstance(v, ast.Starred) for v in s_.value.elts):
+                    # with an attribute among the targets: a later value must not read an earlier target (`a, self.x = self.x, []` is fine)
+                    tt = [ast.dump(t) for t in s_.targets[0].elts]
+                    reads_ok = True
+                    for j, v in enumerate(s_.value.elts):
+                        for i in range(j):
+                            ti = s_.targets[0].elts[i]
+                            key = ti.id if isinstance(ti, ast.Name) else None
+                            for x in ast.walk(v):
+                                if (key and isinstance(x, ast.Name) and x.id == key) or (not key and isinstance(x, ast.Attribute) and ast.dump(x).replace('Load', 'Store') == tt[i]):
+                                    reads_ok = False
+                        if any(isinstance(x, (ast.Call, ast.Yield, ast.Await, ast.NamedExpr)) for x in ast.walk(v)):
+                            reads_ok = False
+                    if reads_ok and len(set(tt)) == len(tt):
+                        for t, v in zip(s_.targets[0].elts, s_.value.elts):
+                            out.append(ast.copy_location(ast.Assign(targets=[t], value=v), s_))
+                        norm_.inlined.append(('parallel assignment', '', 'split'))
+                        continue
                 if isinstance(s_, ast.Assign) and len(s_.targets) == 1 and isinstance(s_.targets[0], ast.Tuple) and isinstance(s_.value, ast.Tuple) and \
                         len(s_.targets[0].elts) == len(s_.value.elts) and all(isinstance(t, ast.Name) for t in s_.targets[0].elts) and \
                         not any(isinstance(v, ast.Starred) for v in s_.value.elts):
